@@ -173,6 +173,11 @@ def job(j):
     return n, nids, res, states, edges
 
 
+def sample_history(cfg, seed, hist):
+    vio, st, k = sweep(cfg, dict(fills(seed))['seed-context'], hist)
+    return dict(cfg=cfg, history=hist, sensor_ids_swept=k, disagreements=sorted({v[0] for v in vio}))
+
+
 def run(tier, seed, rep):
     cfgs = rep_configs(tier, seed)
     depth = 3 if tier == 'thorough' else 1
@@ -198,7 +203,7 @@ def run(tier, seed, rep):
                      f'values, all-0xFFFF/0x8000/0x7FFF; BFS over capability-changing histories of depth <= {depth} '
                      f'(runtime read, single read, battery appears/disappears, blocks become refused/accepted) followed '
                      f'by a sweep over every id of sensors()',
-               samples=[dict(cfg=cfgs[0], history=['dev:battery-off', 'runtime', 'dev:battery-on'])])
+               samples=[sample_history(cfgs[0], seed, ['dev:battery-off', 'sensor:first', 'dev:battery-on'])])
     return dict(level='model_checking', coverage=cov,
                 assumptions=['device model with a static register file between the single read and the bulk read',
                              'documented size of a type from mc/refdec.size_of'])
